@@ -15,7 +15,7 @@
    matching files an answer under the write it was given for (it does not when a reader is
    re-linked while it still owes answers: known finding F-C01-d). *)
 From Coq Require Import List NArith ZArith Bool Lia.
-From Uf Require Import Packet.Writer Packet.WriterProofs.
+From Uf Require Import Packet.Writer Packet.WriterProofs Packet.AttributionProofs.
 Import ListNotations.
 
 Theorem C01_exactly_once_in_order : forall n ops,
@@ -55,6 +55,38 @@ Proof.
 Qed.
 Print Assumptions C01_index_in_range.
 
+(* Attribution.  Writer.receive matches an answer to a write by POSITION (the first row that has a column for the
+   reader and holds nil there).  For every history in which no reader is linked again while it still owes answers
+   (ok_hist; the excluded case is finding F-C01-d, see C01_stale_relink_misattributes), in every reachable state:
+   readers are linked at most once, no row is wider than the reader list, and for every linked reader the rows
+   pending in its column are, oldest first, exactly the writes it still owes (its FIFO of owed serials); for a
+   closed reader they are no more than its outstanding drop notices. *)
+Theorem C01_pending_is_owed : forall n ops, ok_hist (w_init n) ops -> FInv (w_run n ops).
+Proof. exact w_run_FInv. Qed.
+Print Assumptions C01_pending_is_owed.
+
+(* so an answer of reader r lands in the row of the oldest write r still owes: the row Writer.receive picks
+   (head_of, the code's indexOfHead) carries the serial at the head of r's owed queue *)
+Theorem C01_answer_attribution : forall st r idx k rest,
+  FInv st -> w_done st = false ->
+  nth_error (w_readers st) idx = Some r -> rd_done (get_reader st r) = false -> rd_owed (get_reader st r) = k :: rest ->
+  exists pre rw post, w_rows st = pre ++ rw :: post /\ r_serial rw = k /\ head_of idx (w_rows st) 0 = Some (length pre) /\
+    cell_open idx rw = true /\ filter (cell_open idx) pre = [].
+Proof. exact answer_filed_under_oldest_owed. Qed.
+Print Assumptions C01_answer_attribution.
+
+(* the excluded case is real (finding F-C01-d): reader 0 is unlinked while it owes write 0, linked again, and its
+   old answer is filed under write 1 *)
+Theorem C01_stale_relink_misattributes :
+  let ops := [WLink 0; WWrite (PAtom 1); WUnlink 0; WLink 0; WWrite (PAtom 2); WAnswer 0 (Pk (PAtom 10))] in
+  ~ ok_hist (w_init 1) ops /\
+  w_emitted (w_run 1 ops) = [(0, Pk (PErr [0%Z])); (1, Pk (PAtom 10))].
+Proof.
+  split; [|vm_compute; reflexivity].
+  cbn. intros [_ [_ [_ [H _]]]]. vm_compute in H. specialize (H eq_refl). discriminate.
+Qed.
+Print Assumptions C01_stale_relink_misattributes.
+
 (* non-vacuity: a late link, a reader that closes between two writes, a deferred drop notice *)
 Example C01_ex :
   let ops := [WLink 0; WWrite (PAtom 1); WLink 1; WWrite (PAtom 2); WCloseReader 1; WWrite (PAtom 3);
@@ -62,3 +94,9 @@ Example C01_ex :
   w_emitted (w_run 2 ops) =
   [(0, Pk (PAtom 10)); (1, Pk (PErr [0%Z])); (2, Pk (PAtom 30))].
 Proof. vm_compute. reflexivity. Qed.
+
+(* the history above meets the hypothesis of C01_pending_is_owed *)
+Example C01_ex_ok :
+  ok_hist (w_init 2) [WLink 0; WWrite (PAtom 1); WLink 1; WWrite (PAtom 2); WCloseReader 1; WWrite (PAtom 3);
+              WAnswer 0 (Pk (PAtom 10)); WAnswer 0 (Pk (PAtom 20)); WAnswer 0 (Pk (PAtom 30)); WDeliverDrop 0].
+Proof. vm_compute. repeat split; auto. Qed.
